@@ -4,4 +4,5 @@ let table : (string * (z list -> z list)) list = [
   ("c14_builder", run_c14_builder);
   ("c14_builder_pinned", run_c14_builder_pinned);
   ("from_points", run_from_points);
+  ("c14_transform", run_c14_transform);
 ]
